@@ -850,7 +850,7 @@ OBLIGATIONS = {
 
 def private_native(pid):
     built = common.build_native()
-    d = os.path.join(common.WORK, "tmp")
+    d = os.path.join(common.WORK, "lex")
     os.makedirs(d, exist_ok=True)
     nat = os.path.join(d, "%s-verif-native-%d" % (pid.lower(), os.getpid()))
     shutil.copy2(built, nat)
@@ -861,7 +861,7 @@ def _cmd(nat):
     # a lexer that makes no progress pushes tokens forever: cap the address space instead of eating the machine
     # (prlimit instead of a preexec_fn, so that python can spawn without forking this large process)
     pl = shutil.which("prlimit")
-    return ([pl, "--as=%d" % (2 << 30)] if pl else []) + [nat]
+    return ([pl, "--as=%d" % (1 << 29)] if pl else []) + [nat]
 
 
 def _kv(lines):
@@ -873,7 +873,7 @@ def _kv(lines):
     return out
 
 
-def native_run(nat, sub, text, timeout=20):
+def native_run(nat, sub, text, timeout=10):
     try:
         p = subprocess.run(_cmd(nat) + ["lex", sub, text.hex()], stdout=subprocess.PIPE, stderr=subprocess.PIPE, text=True, timeout=timeout,
                            env=common.ENV)
@@ -881,7 +881,7 @@ def native_run(nat, sub, text, timeout=20):
         return {"hang": "no result after %d s" % timeout}
     out = _kv(p.stdout.splitlines())
     if p.returncode != 0 and "panic" not in out:
-        out["hang"] = "process ended with status %d (memory limit 2 GiB): %s" % (p.returncode, p.stderr[-200:].replace("\n", " "))
+        out["hang"] = "process ended with status %d (memory limit 512 MiB): %s" % (p.returncode, p.stderr[-200:].replace("\n", " "))
     return out
 
 
@@ -1309,7 +1309,7 @@ def run2(pid, tier, t0, par, lay, nat):
     log("[%s] translator validated on %d concrete calls (%d + %d unit-test texts of lexer.rs / lib.rs) in %.1fs" %
         (pid, nval, n_lex_texts, n_line_texts, time.time() - t0))
     t_expl = time.time()
-    deadline = t0 + cfg["cap_s"]
+    deadline = t_expl + cfg["cap_s"]          # builds and validation have their own time limits
     results = {}
 
     def explore(bodies, depth, what):
@@ -1389,6 +1389,7 @@ def finish(pid, tier, t0, cfg, reach, results, nat, nval, n_lex_texts, n_line_te
     hooks = {"Lexer::read_token": "observer around the real function (reports a call that does not move the cursor)",
              "keywords_in_map": "the real function, executed once per interpreter instance, value reused"}
     reported = set()
+    replays = {}
     unreproduced = []
     for name, (out, st) in results.items():
         fam = name.split("/")[0]
@@ -1420,11 +1421,15 @@ def finish(pid, tier, t0, cfg, reach, results, nat, nval, n_lex_texts, n_line_te
         bad = bool(out.violations)
         seen = set()
         for v in out.violations:
-            # one native replay per harness and kind of violated obligation (each must reproduce), one report per family and kind
+            # native replay of the first counterexample per harness and kind (at most three per family and kind; each must reproduce),
+            # one report per family and kind
             if v["kind"] in seen:
                 continue
             seen.add(v["kind"])
             key = "%s/%s" % (fam, v["kind"])
+            replays[key] = replays.get(key, 0) + 1
+            if replays[key] > 3:
+                continue            # at most three native replays per family and kind (a hanging lexer costs the full timeout each time)
             ok, detail = replay_violation(nat, pid, v)
             if not ok:
                 unreproduced.append("counterexample of %s (%s) does not reproduce on the real function: %s" %
